@@ -27,6 +27,7 @@ theorem gen_matches_model :
                 "workerCnt==0", "taskCnt==0", "microTaskCnt==0", "stopCompleted.SetToIf(false,true)",
                 "close(stopComplete)"] ∧
     revDepWaitCond = "revDep.Status() > StatusOffline" ∧ onlineSoonResult = "!m.stopFlag.IsSet()" ∧
+    serviceWorkerLoopHead = "if m.IsStopping() { return }" ∧
     statusDead < statusOffline ∧ statusPreparing < statusOffline ∧ statusOffline < statusStopping ∧
     statusStopping < statusStarting ∧ statusStarting < statusOnline := by
   decide
@@ -243,6 +244,38 @@ theorem stopped_module_runs_no_new_task_or_event {s s' : St} {o : Bool} (h : Rea
   simp only [step] at hs
   (repeat' split at hs) <;> cases hs <;> grind
 
+/-- A service worker is not re-run on a stopping module: while the stop flag stays set (= until the module is started
+    again), along every run the number of times a service worker's function is run again is bounded by the number of
+    service workers that were already back at the head of their restart loop before the flag was set (`swTop0`, each at
+    most once); a service worker whose function returns after the flag was set — whatever it returns, `ErrRestartNow`
+    included — leaves its loop. Hence its counter decrement follows its return without another execution, and
+    `prompt_completion` applies: a worker answering the cancellation with "restart me" cannot keep the stop waiting. -/
+theorem stopping_service_worker_not_rerun {s : St} :
+    ∀ (as : List Act) (s' : St), s.flag = 1 → (∀ a ∈ as, a ≠ Act.startBegin) → run s as = some s' →
+      s'.flag = 1 ∧ (as.map Act.rerun).sum + s'.swTop0 ≤ s.swTop0 := by
+  intro as
+  induction as generalizing s with
+  | nil => intro s' hf _ hr; simp [run] at hr; subst hr; simp [hf]
+  | cons a as ih =>
+    intro s' hf hall hr
+    simp only [run] at hr
+    split at hr
+    · rename_i s1 h1
+      have h := rerun_step h1 hf (hall a (by simp))
+      have := ih s' h.1 (fun b hb => hall b (by simp [hb])) hr
+      exact ⟨this.1, by simp; omega⟩
+    · cases hr
+
+/-- … in particular a function return while the flag is set never adds a re-runnable service worker. -/
+theorem return_while_stopping_leaves_loop {s s' : St} (h : Reach s) (hstop : 3 ≤ s.spc)
+    (hs : step s .swReturn = some s') : s'.swTop0 = s.swTop0 ∧ s'.swTop1 = s.swTop1 + 1 := by
+  have hi := inv_reach h
+  unfold StopProto.Inv at hi
+  have hf : s.flag = 1 := by grind
+  simp only [step, hf] at hs
+  cases hs
+  simp
+
 /-- Dependencies wait: the manager begins stopping module `d` only while every module `r` that depends on `d`
     is at most `Offline`; and if such an `r` was stopped without timeout, its stop routine has
     returned and all its work counted at flag time has returned. -/
@@ -337,6 +370,15 @@ def quietMid : St := (run init (cleanRun.take 44)).getD init
 example : run init (cleanRun.take 44) = some quietMid ∧ 5 ≤ quietMid.spc ∧ quietMid.fnpc = 3 ∧
     quietMid.aW + quietMid.bW = 0 ∧ quietMid.aT + quietMid.bT = 0 ∧ quietMid.aM + quietMid.bM = 0 ∧
     quietMid.closed = 0 ∧ 0 < mu quietMid := by decide
+
+/-- a service worker that answers the cancellation with `ErrRestartNow` leaves its loop; running it again is not a run
+    of the model; before the flag is set it may be run again. -/
+example : (run init [.startBegin, .online, .inc .w, .workEnter false, .stopBegin, .sCtrl, .sFlag, .sCancel, .swReturn,
+    .swExit true, .dec .w true]).isSome = true := by decide
+example : (run init [.startBegin, .online, .inc .w, .workEnter false, .stopBegin, .sCtrl, .sFlag, .sCancel, .swReturn,
+    .swRerun]).isSome = false := by decide
+example : (run init [.startBegin, .online, .inc .w, .workEnter false, .swReturn, .swRerun, .workEnter false,
+    .stopBegin, .sCtrl, .swReturn, .sFlag, .swRerun, .workEnter false, .swReturn, .swExit true]).isSome = true := by decide
 
 /-- a timeout run is accepted by the model (the proviso is a hypothesis, not a restriction of the model). -/
 example : (run init [.startBegin, .online, .inc .w, .stopBegin, .sCtrl, .sFlag, .sCancel, .ctrlUnsetNil,
